@@ -1,6 +1,8 @@
 (* C13 -- the scenario language of the check: one operation of C13_Model.v (SOp), or one of the operations added for the
    allocation-pairing observation: repeat-constructor, padStringsToSameLength, split into a collection, subStringFromTill,
-   the bit and binary formatters, and SEQUENCES of operations applied to the same three objects.  Every scenario is executed
+   the bit and binary formatters, and SEQUENCES of operations applied to the same objects: three named objects obj[0..2] and
+   the RESULT OBJECT obj[3], which is constructed directly from the value an operation returns (no copy, no assignment in
+   between) and is then consumed in place by the following steps.  Every scenario is executed
    by the harness inside one recorded window of the string allocator: arguments, results, temporaries and the objects still
    alive when the scenario ends are constructed AND destroyed inside it; o_paired says that every buffer came back exactly once
    with the size it was requested with.
@@ -10,7 +12,7 @@ From CppUVerif Require Import lib.Str C13_Text C13_Alloc C13_Model C13_Pool.
 Import ListNotations.
 Local Open Scope N_scope.
 
-(* one step of an operation sequence on the objects obj[0..2] (harness: `:seq`) *)
+(* one step of an operation sequence on the objects obj[0..3] (harness: `:seq`); obj[3] is the result object R *)
 Inductive sop :=
 | QSet (i : nat) (a : list N)              (* obj[i] = SimpleString(a) *)
 | QAsg (i j : nat)                         (* obj[i] = obj[j]  (self-assignment included) *)
@@ -24,7 +26,27 @@ Inductive sop :=
 | QPad (i j : nat) (ch : N)                (* padStringsToSameLength(obj[i], obj[j], ch), nothing when i = j *)
 | QFmt (i : nat) (a b : list N)            (* obj[i] = StringFromFormat("%s%s", a, b) *)
 | QRep (i : nat) (a : list N) (k : nat)    (* obj[i] = SimpleString(a, k) *)
-| QPlus (i j k : nat).                     (* obj[i] = obj[j] + obj[k] *)
+| QPlus (i j k : nat)                      (* obj[i] = obj[j] + obj[k] *)
+(* producers of the result object: R is the very object the operation returned (the previous R is destroyed afterwards) *)
+| QRNew (a : list N)                       (* R = SimpleString(a) *)
+| QRCopy (j : nat)                         (* R = SimpleString(obj[j]) -- copy constructor *)
+| QRSub (j : nat) (b m : N)                (* R = obj[j].subString(b, m); subString(b) is m = npos *)
+| QRFromTill (j : nat) (c1 c2 : N)         (* R = obj[j].subStringFromTill(c1, c2) *)
+| QRLow (j : nat)                          (* R = obj[j].lowerCase() *)
+| QRPrt (j : nat)                          (* R = obj[j].printable() *)
+| QRPlus (j k : nat)                       (* R = obj[j] + obj[k] *)
+| QRFmt (a b : list N)                     (* R = StringFromFormat("%s%s", a, b) *)
+| QRRep (a : list N) (k : nat)             (* R = SimpleString(a, k) *)
+| QROrd (n : N)                            (* R = StringFromOrdinalNumber(n) *)
+| QRMask (v m bc : N)                      (* R = StringFromMaskedBits(v, m, bc) *)
+| QRBin (bytes : list N)                   (* R = StringFromBinary(bytes, length) *)
+| QRSplit (j : nat) (d : N) (k : nat)      (* obj[j].split(d, col); R = col[k] itself (the out-of-range element when k >= col.size()) *)
+(* observers: each appends one entry to the log of the sequence *)
+| QSize (i : nat)                          (* obj[i].size(), obj[i].isEmpty() *)
+| QAt (i : nat) (pos : N)                  (* obj[i].at(pos mod (size + 1)) -- every position up to the terminator *)
+| QCmp (i j : nat)                         (* obj[i] == obj[j], contains, startsWith, endsWith, count *)
+| QCpb (i : nat) (dn : nat)                (* obj[i].copyToBuffer(buffer of dn cells, dn) *)
+| QFind (i : nat) (start ch : N).          (* obj[i].findFrom(start, ch) *)
 
 Inductive scn :=
 | SOp (o : op)
@@ -57,21 +79,58 @@ Definition mstep (st : list (list N)) (q : sop) : res (list (list N)) :=
   | QFmt i a b => do t <- format_m (a ++ b); do v <- newFrom t; Ok (updl i v st)
   | QRep i a k => do t <- newRepeat (cs a) k; do v <- newFrom t; Ok (updl i v st)
   | QPlus i j k => do t <- plus_m (getb st j) (getb st k); do v <- newFrom t; Ok (updl i v st)
+  (* the returned buffer itself becomes R: whatever slack the operation left behind its terminator stays *)
+  | QRNew a => do t <- newFrom (cs a); Ok (updl 3 t st)
+  | QRCopy j => do t <- newFrom (getb st j); Ok (updl 3 t st)
+  | QRSub j b m => do t <- subString_m (getb st j) b m; Ok (updl 3 t st)
+  | QRFromTill j c1 c2 => do t <- subStringFromTill_m (getb st j) c1 c2; Ok (updl 3 t st)
+  | QRLow j => do t <- lowerCase_m (getb st j); Ok (updl 3 t st)
+  | QRPrt j => do t <- printable_m (getb st j); Ok (updl 3 t st)
+  | QRPlus j k => do t <- plus_m (getb st j) (getb st k); Ok (updl 3 t st)
+  | QRFmt a b => do t <- format_m (a ++ b); Ok (updl 3 t st)
+  | QRRep a k => do t <- newRepeat (cs a) k; Ok (updl 3 t st)
+  | QROrd n => Ok (updl 3 (cs (ordinal_m n)) st)
+  | QRMask v m bc => do l <- maskedBits_m v m bc; Ok (updl 3 (cs l) st)
+  | QRBin bytes => do l <- binary_m bytes (length bytes); Ok (updl 3 (cs l) st)
+  | QRSplit j d k => do l <- split_m (getb st j) (cs [d]); Ok (updl 3 (nth k l emptyString) st)
+  | QSize _ | QAt _ _ | QCmp _ _ | QCpb _ _ | QFind _ _ _ => Ok st
   end.
-Fixpoint mrun (st : list (list N)) (ops : list sop) : res (list (list N)) :=
-  match ops with [] => Ok st | q :: r => do st' <- mstep st q; mrun st' r end.
-Definition pool0 : list (list N) := [emptyString; emptyString; emptyString].     (* SimpleString obj[3] *)
+(* numbers in the log: a size_t as its eight bytes, least significant first; a truth value as one byte *)
+Definition le8 (n : N) : list N := map (fun k => (n / 256 ^ k) mod 256) [0; 1; 2; 3; 4; 5; 6; 7].
+Definition b01 (b : bool) : N := if b then 1 else 0.
+(* what an observer step reads from the buffers *)
+Definition mobs (st : list (list N)) (q : sop) : res (list (list N)) :=
+  match q with
+  | QSize i => do n <- StrLen (getb st i); Ok [le8 (N.of_nat n) ++ [b01 (Nat.eqb n 0)]]
+  | QAt i pos => do n <- StrLen (getb st i); do p <- adv (N.to_nat (pos mod N.of_nat (S n))) (getb st i); do c <- rd p; Ok [[c]]
+  | QCmp i j =>
+      let x := getb st i in let y := getb st j in
+      do e <- equal_m x y; do c <- contains_m x y; do s <- startsWith_m x y; do w <- endsWith_m x y; do k <- count_m x y;
+      Ok [[b01 e; b01 c; b01 s; b01 w] ++ le8 (N.of_nat k)]
+  | QCpb i dn => do d <- copyToBuffer_m (getb st i) (fresh dn) dn; Ok [d]
+  | QFind i start ch => do r <- findFrom_m (getb st i) start ch; Ok [le8 (match r with Some p => p | None => NPOS end)]
+  | _ => Ok []
+  end.
+Fixpoint mrun (st : list (list N)) (ops : list sop) : res (list (list N) * list (list N)) :=
+  match ops with
+  | [] => Ok (st, [])
+  | q :: r => do e <- mobs st q; do st' <- mstep st q; do p <- mrun st' r; Ok (fst p, e ++ snd p)
+  end.
+Definition pool0 : list (list N) := [emptyString; emptyString; emptyString; emptyString].     (* SimpleString obj[3], R *)
 Fixpoint cstrs (l : list (list N)) : option (list (list N)) :=
   match l with [] => Some [] | b :: r => match cstr_of b, cstrs r with Some s, Some t => Some (s :: t) | _, _ => None end end.
 Definition vlist (r : res (list (list N))) : oval :=
   match r with Ok l => match cstrs l with Some v => VL v | None => VErr end | _ => VErr end.
+(* a sequence: the values of the four objects at the end, then the log of the observers *)
+Definition vseq (r : res (list (list N) * list (list N))) : oval :=
+  match r with Ok (l, lg) => match cstrs l with Some v => VL (v ++ lg) | None => VErr end | _ => VErr end.
 
 Definition eval_scn (s : scn) : oval :=
   match s with
   | SOp o => eval o
   | SRepeat a k => vstr (newRepeat (cs a) k)
   | SPad a b ch => vlist (do pr <- pad_m (cs a) (cs b) ch; Ok [fst pr; snd pr])
-  | SSeq ops => vlist (mrun pool0 ops)
+  | SSeq ops => vseq (mrun pool0 ops)
   | SSplit a d => vlist (split_m (cs a) (cs [d]))
   | SFromTill a c1 c2 => vstr (subStringFromTill_m (cs a) c1 c2)
   | SMasked v m bc => match maskedBits_m v m bc with Ok l => VB l | _ => VErr end
@@ -88,35 +147,13 @@ Definition pairing_scn (s : scn) : bool :=
   end.
 Definition run_scn (s : scn) : obs := {| o_val := eval_scn s; o_ref := true; o_paired := pairing_scn s |}.
 
-(* ---------------------------------------------------------------- validity *)
-Definition idx (i : nat) : bool := Nat.ltb i 3.
-Definition chr (c : N) : bool := negb (c =? 0) && (c <? 256).
-Definition valid_sop (q : sop) : bool :=
-  match q with
-  | QSet i a | QAppC i a => idx i && nonul a
-  | QAsg i j | QApp i j | QLow i j | QPrt i j => idx i && idx j
-  | QSub i j b m => idx i && idx j && (b <? SIZE_MOD) && (m <? SIZE_MOD)
-  | QRc i c1 c2 => idx i && isbyte c1 && chr c2
-  | QRs i a b | QFmt i a b => idx i && nonul a && nonul b
-  | QPad i j ch => idx i && idx j && chr ch
-  | QRep i a k => idx i && nonul a
-  | QPlus i j k => idx i && idx j && idx k
-  end.
-Definition valid_scn (s : scn) : bool :=
-  match s with
-  | SOp o => valid o
-  | SRepeat a k => nonul a
-  | SPad a b ch => nonul a && nonul b && chr ch
-  | SSeq ops => forallb valid_sop ops
-  | SSplit a d => nonul a && chr d
-  | SFromTill a c1 c2 => nonul a && isbyte c1 && isbyte c2 && (N.of_nat (length a) <? NPOS)      (* LP64: a length is a size_t below npos *)
-  | SMasked v m bc => (v <? ULONG_MOD) && (m <? ULONG_MOD) && (bc <? SIZE_MOD)
-  | SBinary bytes => forallb isbyte bytes
-  end.
-(* ---------------------------------------------------------------- spec: textbook values (nothing of the model above) *)
+(* ---------------------------------------------------------------- textbook meaning of a sequence (nothing of the model above) *)
 Definition t_pad (a b : list N) (ch : N) : list N * list N :=
   if Nat.ltb (length b) (length a) then (a, repeat ch (length a - length b) ++ b)
   else (repeat ch (length b - length a) ++ a, b).
+(* pieces each ending with the delimiter (kept) plus the non-empty remainder; the empty string is one empty piece *)
+Definition t_split_all (d : N) (s : list N) : list (list N) := match s with [] => [[]] | _ => t_split d s [] end.
+(* the values of the four objects after one step *)
 Definition t_sstep (st : list (list N)) (q : sop) : list (list N) :=
   let get i := nth i st [] in
   match q with
@@ -133,10 +170,83 @@ Definition t_sstep (st : list (list N)) (q : sop) : list (list N) :=
   | QFmt i a b => updl i (a ++ b) st
   | QRep i a k => updl i (t_concat_rep a k) st
   | QPlus i j k => updl i (get j ++ get k) st
+  | QRNew a => updl 3 a st
+  | QRCopy j => updl 3 (get j) st
+  | QRSub j b m => updl 3 (t_substr (get j) b m) st
+  | QRFromTill j c1 c2 => updl 3 (t_from_till (get j) c1 c2) st
+  | QRLow j => updl 3 (lower (get j)) st
+  | QRPrt j => updl 3 (t_printable (get j)) st
+  | QRPlus j k => updl 3 (get j ++ get k) st
+  | QRFmt a b => updl 3 (a ++ b) st
+  | QRRep a k => updl 3 (t_concat_rep a k) st
+  | QROrd n => updl 3 (t_ordinal n) st
+  | QRMask v m bc => updl 3 (t_masked v m bc) st
+  | QRBin bytes => updl 3 (t_binary bytes) st
+  | QRSplit j d k => updl 3 (nth k (t_split_all d (get j)) []) st
+  | QSize _ | QAt _ _ | QCmp _ _ | QCpb _ _ | QFind _ _ _ => st
   end.
-(* pieces each ending with the delimiter (kept) plus the non-empty remainder; the empty string is one empty piece *)
-Definition t_split_all (d : N) (s : list N) : list (list N) := match s with [] => [[]] | _ => t_split d s [] end.
-Definition t_seq (ops : list sop) : list (list N) := fold_left t_sstep ops [[]; []; []].
+(* what an observer step must report about the values *)
+Definition t_sobs (st : list (list N)) (q : sop) : list (list N) :=
+  let get i := nth i st [] in
+  match q with
+  | QSize i => [le8 (N.of_nat (length (get i))) ++ [b01 (match get i with [] => true | _ => false end)]]
+  | QAt i pos => [[nth (N.to_nat (pos mod N.of_nat (S (length (get i))))) (get i) 0]]       (* the terminator reads as 0 *)
+  | QCmp i j => [[b01 (bytes_eqb (get i) (get j)); b01 (contains (get i) (get j)); b01 (is_prefix (get j) (get i));
+                  b01 (t_ends_with (get i) (get j))] ++ le8 (N.of_nat (t_count (get i) (get j)))]
+  | QCpb i dn => [t_copy_out (get i) dn]
+  | QFind i start ch => [le8 (match t_find_from (get i) start ch with Some p => p | None => NPOS end)]
+  | _ => []
+  end.
+Fixpoint t_run (st : list (list N)) (ops : list sop) : list (list N) * list (list N) :=
+  match ops with [] => (st, []) | q :: r => let p := t_run (t_sstep st q) r in (fst p, t_sobs st q ++ snd p) end.
+Definition t_seq (ops : list sop) : list (list N) := let p := t_run [[]; []; []; []] ops in fst p ++ snd p.
+
+(* ---------------------------------------------------------------- validity *)
+Definition idx (i : nat) : bool := Nat.ltb i 4.
+Definition chr (c : N) : bool := negb (c =? 0) && (c <? 256).
+Definition valid_sop (q : sop) : bool :=
+  match q with
+  | QSet i a | QAppC i a => idx i && nonul a
+  | QAsg i j | QApp i j | QLow i j | QPrt i j => idx i && idx j
+  | QSub i j b m => idx i && idx j && (b <? SIZE_MOD) && (m <? SIZE_MOD)
+  | QRc i c1 c2 => idx i && isbyte c1 && chr c2
+  | QRs i a b | QFmt i a b => idx i && nonul a && nonul b
+  | QPad i j ch => idx i && idx j && chr ch
+  | QRep i a k => idx i && nonul a
+  | QPlus i j k => idx i && idx j && idx k
+  | QRNew a => nonul a
+  | QRCopy j | QRLow j | QRPrt j => idx j
+  | QRSub j b m => idx j && (b <? SIZE_MOD) && (m <? SIZE_MOD)
+  | QRFromTill j c1 c2 => idx j && isbyte c1 && isbyte c2
+  | QRPlus j k => idx j && idx k
+  | QRFmt a b => nonul a && nonul b
+  | QRRep a k => nonul a
+  | QROrd n => n <? 4294967296
+  | QRMask v m bc => (v <? ULONG_MOD) && (m <? ULONG_MOD) && (bc <? SIZE_MOD)
+  | QRBin bytes => forallb isbyte bytes
+  | QRSplit j d k => idx j && chr d
+  | QSize i | QCpb i _ => idx i
+  | QAt i pos => idx i && (pos <? SIZE_MOD)
+  | QCmp i j => idx i && idx j
+  | QFind i start ch => idx i && (start <? SIZE_MOD) && isbyte ch
+  end.
+(* the one condition on the VALUES a step meets: subStringFromTill of a string shorter than npos (LP64: every length is) *)
+Definition valid_at (st : list (list N)) (q : sop) : bool :=
+  match q with QRFromTill j _ _ => N.of_nat (length (nth j st [])) <? NPOS | _ => true end.
+Fixpoint valid_ops (st : list (list N)) (ops : list sop) : bool :=
+  match ops with [] => true | q :: r => valid_sop q && valid_at st q && valid_ops (t_sstep st q) r end.
+Definition valid_scn (s : scn) : bool :=
+  match s with
+  | SOp o => valid o
+  | SRepeat a k => nonul a
+  | SPad a b ch => nonul a && nonul b && chr ch
+  | SSeq ops => valid_ops [[]; []; []; []] ops
+  | SSplit a d => nonul a && chr d
+  | SFromTill a c1 c2 => nonul a && isbyte c1 && isbyte c2 && (N.of_nat (length a) <? NPOS)      (* LP64: a length is a size_t below npos *)
+  | SMasked v m bc => (v <? ULONG_MOD) && (m <? ULONG_MOD) && (bc <? SIZE_MOD)
+  | SBinary bytes => forallb isbyte bytes
+  end.
+(* ---------------------------------------------------------------- spec: textbook values *)
 Definition expected_scn (s : scn) : oval :=
   match s with
   | SOp o => expected o
